@@ -18,7 +18,8 @@ from symx import Engine, ModelGap, SymBool, SymInt, SymReal, SymStr, _Proxy, ev
 DT = {"int": np.dtype("int64"), "float": np.dtype("float64"), "str": np.dtype(object), "bool": np.dtype(bool), "Int": pd.Int64Dtype(),
       "object": np.dtype(object)}  # "object": concrete python objects (given values only)
 SORT = {"int": z3.IntSort(), "float": z3.RealSort(), "str": z3.StringSort(), "bool": z3.BoolSort(), "Int": z3.IntSort()}
-PRINTABLE = z3.Star(z3.Range(" ", "~"))
+# alphabet of symbolic strings: printable ASCII plus one 2-byte and one 3-byte UTF-8 character (character count != byte count)
+PRINTABLE = z3.Star(z3.Union(z3.Range(" ", "~"), z3.Re("\u00e9"), z3.Re("\u65e5")))
 BOUND = 2**31
 
 
@@ -98,6 +99,13 @@ class Vals(dict):
         return super().update(*a, **kw)
 
 
+def _unescape(s):
+    """z3 prints characters outside Latin-1 (and some inside) as \\u{hex}"""
+    import re as _re
+
+    return _re.sub(r"\\u\{([0-9a-fA-F]+)\}", lambda m: chr(int(m.group(1), 16)), s)
+
+
 def _pyval(v):
     if z3.is_int_value(v):
         return v.as_long()
@@ -108,7 +116,7 @@ def _pyval(v):
     if z3.is_rational_value(v):
         return float(v.as_fraction())
     if z3.is_string_value(v):
-        return v.as_string()
+        return _unescape(v.as_string())
     if z3.is_algebraic_value(v):
         return float(v.approx(20).as_fraction())
     # not fully simplified (e.g. regex membership on a literal): decide it with a tiny solver call
@@ -315,8 +323,10 @@ class V:
         df.columns = [k for k, *_ in data]
         return df
 
-    def mi_frame(self, cols, n, levels):
-        """frame with a MultiIndex; levels: list of (level name, variable prefix) of int labels."""
+    def mi_frame(self, cols, n, levels, extra_filtered=0):
+        """frame with a MultiIndex; levels: list of (level name, variable prefix) of int labels.  extra_filtered: that many more rows
+        are built and then sliced off again (their level values stay behind in the index as unused levels)"""
+        keep, n = n, n + extra_filtered
         labs = [self.labels(p, n) for _, p in levels]
         data = []
         for c in cols:
@@ -326,10 +336,12 @@ class V:
         names = [nm for nm, _ in levels]
         if self.sym:
             idx = symframe.MultiIndex(labs, names)
-            return symframe.DataFrame([(k, symframe.Series(vals, nulls=nulls, dtype=DT[kind], index=idx.copy())) for k, kind, vals, nulls in data], index=idx)
+            out = symframe.DataFrame([(k, symframe.Series(vals, nulls=nulls, dtype=DT[kind], index=idx.copy())) for k, kind, vals, nulls in data], index=idx)
+            return out.head(keep) if extra_filtered else out
         arrays = [[self.vals.term(l) for l in lv] for lv in labs]
         idx = pd.MultiIndex.from_arrays([pd.array(a, dtype="int64") for a in arrays], names=names) if n else pd.MultiIndex.from_arrays([pd.array([], dtype="int64") for _ in arrays], names=names)
-        return pd.DataFrame({k: pd.Series(self._conc_cells(vals, nulls, kind), dtype=DT[kind], index=idx) for k, kind, vals, nulls in data}, index=idx)
+        out = pd.DataFrame({k: pd.Series(self._conc_cells(vals, nulls, kind), dtype=DT[kind], index=idx) for k, kind, vals, nulls in data}, index=idx)
+        return out.iloc[:keep] if extra_filtered else out
 
 
     # ------------------------------------------------------------------ polars containers (stage 2 of DESIGN.md 2.3)
@@ -423,7 +435,7 @@ def snap_shim(obj, vals: Vals):
     for i, p in enumerate(obj.present):
         if _evv(vals, p):
             if isinstance(obj.index, symframe.MultiIndex):
-                lab = str(tuple(norm_val(_evv(vals, lv[i])) for lv in obj.index.levels))
+                lab = str(tuple(norm_val(_evv(vals, lv[i])) for lv in obj.index._lv))
             else:
                 lab = norm_val(_evv(vals, obj.index.labels[i])) if obj.index.labels[i] is not None else None
             rows.append((lab, [(str(k), (None if _evv(vals, c.nulls[i]) else norm_val(_evv(vals, c.vals[i])))) for k, c in obj._cols]))
@@ -638,7 +650,7 @@ def snapshot(obj):
 
 def _idx_snap(idx):
     if isinstance(idx, symframe.MultiIndex):
-        return ("MI", [list(l) for l in idx.levels], list(idx.names), str([str(d) for d in idx.dtypes]))
+        return ("MI", [list(l) for l in idx._lv], list(idx.names), str([str(d) for d in idx.dtypes]))
     return ("I", [list(idx.labels)], [idx.name], str(idx.dtype))
 
 
